@@ -11,7 +11,7 @@ TEXT = {
     "C02": ("one total order = the ghost log; per-stream segments, per-handle subsequences, claim step inside the call interval; tie: as C01 + order monitor", "invariant proof + event correspondence"),
     "C03": ("window invariant head <= pos s + N and tail-cache soundness for all reachable states; validWrap arithmetic; tie: event correspondence + window monitor", "invariant proof + event correspondence"),
     "C04": ("PinInv, inductive over every label: pin counter = number of consumers in a pinned section of the slot; a producer past the pin check and a consumer in a validated pinned read are never on one slot; an unpinned (sole) reader is on the current position; what a consumer read is still in the slot when it clones; the torn flag is never set (broadcast queues, F1/F12 exclusions, no futures conversions; after the repair of F16, which the proof attempt exposed); view closures and returned clones see the logged value; tie: payload type that yields inside Clone/view/Drop and self-checks, family pin with scripted schedules", "invariant proof + event correspondence"),
-    "C05": ("drop-site frame (only 4 program points drop, one value each), overwritten value already consumed by every registered stream (ring invariant), both destructor loops drop each written slot / each unconsumed position exactly once (induction over the loop, any state); tie: payload birth/clone/drop ledger of the harness on every real execution + all teardown orders + sequential differential; F5/F12 known", "invariant + loop-induction proofs (Lean) + ledger monitor on real executions"),
+    "C05": ("drop-site frame (only 4 program points drop, one value each), overwritten value already consumed by every registered stream (ring invariant), both destructor loops drop each written slot / each unconsumed position exactly once (induction over the loop, any state); tie: payload birth/clone/drop ledger of the harness on every real execution + all teardown orders + sequential differential; F5 known, F12 repaired (family kf12 kept as regression)", "invariant + loop-induction proofs (Lean) + ledger monitor on real executions"),
     "C06": ("quiescent states of Core abstract to Spec states; tie: quiescent fill/drain probe after every concurrent run", "refinement at quiescence + probe"),
     "C07": ("DiscInv, inductive over every label (with the handle accounting MInv): writers is and stays 0 between the writers load and the report, the tag is and stays missing after the second tag load; in the state from which Disconnected is returned no sender handle is counted, no send is in flight, the stream is at head and has delivered the whole log since its start (shared, single and view paths); Spec: the end is stable; tie: disc family + end monitor", "invariant proof + event correspondence"),
     "C08": ('WakeInv (MQ/Inv/Wake*.lean): in every reachable state of a BlockingWait queue a consumer waiting on the condvar whose condition holds has a pending notifier, which stays pending until its notify_all releases every waiter (inductive over all labels; hypothesis: the condvar mutex is mutual exclusion); plus the arithmetic of wait::check (true when published or no writers, false on a fresh slot), the (seq, slot) pairing and the yield loops; tie: event correspondence incl. lock/cvwait/cvnotify events, arithmetic differential on check, hang verdicts of the scheduler', 'invariant proof (Lean, no-lost-wakeup) + arithmetic differential + event correspondence + hang verdicts'),
